@@ -180,8 +180,8 @@ func recC15(c *ctx) {
 		verify("otherkey", v10, pk2, pi, alpha, vtables(v10, pk2, pi, alpha))
 		verify("shortproof", v10, pk, pi[:79], alpha, &htab{})
 		// the s < L check of the proof decoder on the scalar boundary family (a rotating part per run)
-		bd := vt.Boundary256()
-		for j := (i + int(c.r.Int63()%7)) % 7; j < len(bd); j += 7 * 6 {
+		bd := vt.WordClasses()
+		for j := (i + int(c.r.Int63()%5)) % 5; j < len(bd); j += 5 {
 			pb := append(append([]byte(nil), pi[:48]...), bd[j]...)
 			b, err := ecvrf.ProofToHash(pb)
 			c.w.Emit(vt.Ev{"op": "vrfp2h", "cfg": c.cfg, "pi": vt.B(pb), "p2hok": err == nil, "p2h": vt.B(b)})
